@@ -29,6 +29,7 @@ type Obligation struct {
 	Cases  []Case
 	Cover  bool // expects sat (vacuity guard)
 	seq    int
+	single bool
 }
 
 type Closure struct {
@@ -114,6 +115,8 @@ type Exec struct {
 	topParams  map[string]Val
 	maxDepth   int
 	modulePath string
+	topFrame   *Frame
+	topEnvVars map[string]Val
 	interior   map[*Term][]*LVal
 	tupleLV    map[*Term]*LVal
 }
@@ -145,6 +148,12 @@ func (x *Exec) posOf(p token.Pos) string {
 // oblige records one case of an obligation identified by (call chain, site, kind, target, extra).
 func (x *Exec) oblige(fr *Frame, st *State, kind, target string, pos token.Pos, goal *Term, text string) {
 	if st.dry != nil {
+		return
+	}
+	if goal.Op == "and" && (kind == "post" || kind == "inv-step" || kind == "inv-entry" || kind == "pre") && len(goal.Args) <= 40 {
+		for i, g := range goal.Args {
+			x.oblige(fr, st, kind, target, pos, g, fmt.Sprintf("%s /%d", text, i))
+		}
 		return
 	}
 	if goal == True || st.infeasible() {
@@ -942,7 +951,8 @@ func (x *Exec) loadGlobal(st *State, g *ssa.Global, lv *LVal) Val {
 	if _, isIface := elem.Underlying().(*types.Interface); isIface {
 		// e.g. io.EOF, ErrEOF: non-nil interface with a unique payload per global
 		id := x.globalRef(g).Val.Int64()
-		return Val{T: elem, C: []*Term{UF("gtyp."+name, IntSort), IntConst(id + 500000)}}
+		_ = name
+		return Val{T: elem, C: []*Term{IntConst(id - 1200000), IntConst(id + 500000)}}
 	}
 	if st.heap[lv.Prefix+"|"+lv.Path] == nil && len(layoutOf(elem)) == 1 {
 		// first read of a global scalar: stable symbolic initial value
